@@ -4,8 +4,8 @@ import ast
 import z3
 
 from .contracts import (
-    Any, Bool, BytesT, CallCtx, ConcreteListT, Const, DictT, ExcT, ExtSpec, ExtT, FuncT, Int,
-    ListOfT, LockT, MapT, ObjT, OptT, Real, SetT, Str, View,
+    Any, Bool, BytesT, CallCtx, ConcreteListT, Const, DictT, ExcT, ExtSpec, ExtT, FuncT, HeapT, Int,
+    ListOfT, LockT, MapT, ObjT, OptT, Real, RecordT, SetT, Str, View,
 )
 from .engine import EngineError, Res, ok, rs
 from .repo import ClassInfo, FuncInfo
@@ -52,6 +52,8 @@ class CallMixin:
         if isinstance(t, ListOfT):
             n = z3.Int(fresh_name(name + '_len'))
             st.assume(n >= 0)
+            if isinstance(t.elem, RecordT):
+                return st.alloc(self.make_record_list(t.elem, name, n))
             if t.elem is Int:
                 arr = z3.Array(fresh_name(name + '_arr'), z3.IntSort(), z3.IntSort())
                 elem = lambda i, arr=arr: z3.Select(arr, to_int_term(i))
@@ -61,6 +63,9 @@ class CallMixin:
             else:
                 raise EngineError('ListOfT element type')
             return st.alloc(HObj('slist', meta={'len': n, 'elem': elem, 'arr': arr, 'name': t.name or name, 'elem_t': t.elem}))
+        if isinstance(t, HeapT):
+            cnt = z3.Array(fresh_name(name + '_count'), z3.IntSort(), z3.ArraySort(z3.IntSort(), z3.IntSort()))
+            return st.alloc(HObj('sheap', meta={'count': cnt, 'base': t.base}))
         if isinstance(t, ConcreteListT):
             return st.alloc(HObj('list', items=[self.make_symbolic(x, f'{name}{i}', st) for i, x in enumerate(t.elems)]))
         if isinstance(t, DictT):
@@ -83,6 +88,32 @@ class CallMixin:
         if isinstance(t, ObjT):
             return self.make_object(t, name, st)
         raise EngineError(f'make_symbolic: {t!r}')
+
+    def make_record_list(self, rt, name, n):
+        arrs = {}
+        for fname, ft in rt.fields.items():
+            if ft is Int:
+                arrs[fname] = z3.Array(fresh_name(f'{name}_{fname}'), z3.IntSort(), z3.IntSort())
+            elif isinstance(ft, BytesT):
+                arrs[fname] = (ft.base, z3.Array(fresh_name(f'{name}_{fname}_lo'), z3.IntSort(), z3.IntSort()),
+                               z3.Array(fresh_name(f'{name}_{fname}_hi'), z3.IntSort(), z3.IntSort()))
+            else:
+                raise EngineError('RecordT field type')
+        h = HObj('slist', meta={'len': n, 'arrs': arrs, 'elem_t': rt, 'name': name, 'arr': None})
+        h.meta['elem'] = self.record_elem_fn(h)
+        return h
+
+    def record_elem_fn(self, h):
+        def elem(i, h=h):
+            i = to_int_term(i)
+            rec = {}
+            for fname, a in h.meta['arrs'].items():
+                if isinstance(a, tuple):
+                    rec[fname] = BytesV(a[0], z3.Select(a[1], i), z3.Select(a[2], i))
+                else:
+                    rec[fname] = z3.Select(a, i)
+            return ('record', rec)
+        return elem
 
     def make_object(self, t, name, st):
         cinfo = self.repo.cls(t.cls)
@@ -258,8 +289,12 @@ class CallMixin:
 
     def getitem(self, c, k, st, line):
         c = self.unwrap_opt(c, st, 'subscript', line)
-        if isinstance(c, tuple) and len(c) == 2 and c[0] == 'frozenlist':
+        if isinstance(c, tuple) and len(c) == 2 and (isinstance(c[0], str) and c[0] == 'frozenlist'):
             c = c[1]
+        if isinstance(c, tuple) and len(c) == 2 and (isinstance(c[0], str) and c[0] == 'record'):
+            if isinstance(k, str) and k in c[1]:
+                return [ok(c[1][k], st)]
+            return [rs(ExcV('KeyError', (k,)), st)]
         if isinstance(c, tuple):
             if isinstance(k, int):
                 return [ok(c[k], st)]
@@ -289,6 +324,8 @@ class CallMixin:
                 return out
             if h.kind == 'symdict':
                 return self.symdict_getitem(c, h, k, st, line)
+            if h.kind == 'sheap':
+                return self.sheap_peek(c, h, k, st, line)
             raise EngineError(f'subscript on {h.kind}')
         if isinstance(c, Opaque):
             spec = self.ext_spec(c.kind, '[]')
@@ -350,7 +387,7 @@ class CallMixin:
 
     def seq_of(self, v, st):
         """z3 Seq(Int) of a list value (concrete list of ints or mapslot)."""
-        if isinstance(v, tuple) and v and v[0] == 'mapslot':
+        if isinstance(v, tuple) and v and (isinstance(v[0], str) and v[0] == 'mapslot'):
             return z3.Select(st.obj(v[1]).meta['vals'], v[2])
         if isinstance(v, Ref) and st.obj(v).kind == 'list':
             items = st.obj(v).items
@@ -526,7 +563,7 @@ class CallMixin:
 
     def resolve_defaults(self, env, st, mod):
         for k, v in list(env.items()):
-            if isinstance(v, tuple) and len(v) == 2 and v[0] == '$default':
+            if isinstance(v, tuple) and len(v) == 2 and (isinstance(v[0], str) and v[0] == '$default'):
                 from .state import State
                 tmp = State()
                 tmp.env['$mod'] = mod
